@@ -28,6 +28,16 @@ func (e *Env) storeOf(rq gen.Request) string {
 	return e.StoreID
 }
 
+func (e *Env) modelOf(rq gen.Request) string {
+	switch rq.ModelID {
+	case "":
+		return e.ModelID
+	case "-":
+		return ""
+	}
+	return rq.ModelID
+}
+
 func consistency(hc bool) openfgav1.ConsistencyPreference {
 	if hc {
 		return openfgav1.ConsistencyPreference_HIGHER_CONSISTENCY
@@ -241,7 +251,7 @@ func (e *Env) SrvCheck(ctx context.Context, s *server.Server, rq gen.Request) (b
 func (e *Env) srvCheck(ctx context.Context, s *server.Server, rq gen.Request) (bool, error) {
 	resp, err := s.Check(ctx, &openfgav1.CheckRequest{
 		StoreId:              e.storeOf(rq),
-		AuthorizationModelId: e.ModelID,
+		AuthorizationModelId: e.modelOf(rq),
 		TupleKey:             tuple.NewCheckRequestTupleKey(rq.Obj, rq.Rel, rq.User),
 		ContextualTuples:     CtxTupleKeys(rq.CtxTuples),
 		Context:              rm.MustStruct(rq.Ctx),
@@ -263,7 +273,7 @@ func (e *Env) srvListObjects(ctx context.Context, s *server.Server, rq gen.Reque
 		st := &collectStream{ctx: ctx}
 		err := s.StreamedListObjects(&openfgav1.StreamedListObjectsRequest{
 			StoreId:              e.storeOf(rq),
-			AuthorizationModelId: e.ModelID,
+			AuthorizationModelId: e.modelOf(rq),
 			Type:                 rq.Type,
 			Relation:             rq.Rel,
 			User:                 rq.User,
@@ -275,7 +285,7 @@ func (e *Env) srvListObjects(ctx context.Context, s *server.Server, rq gen.Reque
 	}
 	resp, err := s.ListObjects(ctx, &openfgav1.ListObjectsRequest{
 		StoreId:              e.storeOf(rq),
-		AuthorizationModelId: e.ModelID,
+		AuthorizationModelId: e.modelOf(rq),
 		Type:                 rq.Type,
 		Relation:             rq.Rel,
 		User:                 rq.User,
@@ -328,7 +338,7 @@ func (e *Env) srvListUsers(ctx context.Context, s *server.Server, rq gen.Request
 	}
 	resp, err := s.ListUsers(ctx, &openfgav1.ListUsersRequest{
 		StoreId:              e.storeOf(rq),
-		AuthorizationModelId: e.ModelID,
+		AuthorizationModelId: e.modelOf(rq),
 		Object:               &openfgav1.Object{Type: ot, Id: oid},
 		Relation:             rq.Rel,
 		UserFilters:          []*openfgav1.UserTypeFilter{{Type: ft, Relation: fr}},
@@ -367,7 +377,7 @@ type BatchOutcome struct {
 
 // SrvBatchCheck issues a BatchCheck; items get correlation ids "i0", "i1", ...
 func (e *Env) SrvBatchCheck(ctx context.Context, s *server.Server, rq gen.Request) (map[string]BatchOutcome, int, error) {
-	req := &openfgav1.BatchCheckRequest{StoreId: e.storeOf(rq), AuthorizationModelId: e.ModelID, Consistency: consistency(rq.HC)}
+	req := &openfgav1.BatchCheckRequest{StoreId: e.storeOf(rq), AuthorizationModelId: e.modelOf(rq), Consistency: consistency(rq.HC)}
 	for i, it := range rq.Items {
 		req.Checks = append(req.Checks, &openfgav1.BatchCheckItem{
 			TupleKey:         tuple.NewCheckRequestTupleKey(it.Obj, it.Rel, it.User),
